@@ -18,6 +18,8 @@ RULE_PROP_OVERRIDE = {
 }
 RULE_RENAME = {
     "R01.done": "R13.done",
+    "R01.sign": "R01.sem",
+    "R02.cnt": "R02.sib",
 }
 
 
@@ -60,6 +62,7 @@ ALIASES = {
     "R02.resolve": [("C07", "R07.resolve")],
     "R11.load": [("C13", "R13.load")],
     "R11.reset": [("C13", "R13.reset")],
+    "R13.done": [("C01", "R01.done")],
 }
 
 
